@@ -370,8 +370,55 @@ def follow_up(im, call):
     return box[0] if box else None
 
 
+def source_read_faults(run):
+    """search beyond the model's fault sites: the caller's data file fails in mid-transfer (a read of the k-th buffer raises).
+    In the code that error surfaces inside the same loop as a failing write of the same buffer into the staging file, which IS a
+    site of the model (WriteChunk; P-fault ties it to the model): so the two runs must agree on outcome class, files and
+    identifiers held, and the property's clauses are judged on the source-read run directly."""
+    cases = [("", "so 1 p 9 3 n n"), ("so 2 p 7 1 n n", "so 1 p 7 1 n n"), ("so 1 p 7 1 n n", "so 1 p 9 3 n n"), ("", "so - p 9 3 n n"),
+             ("", "sm 1 0 p 1 3"), ("sm 1 0 p 1 1", "sm 1 0 p 2 3")]
+    for setup_t, call_t in cases:
+        setup, call = cf.parse_history(setup_t), cf.parse_call(call_t)
+        u = Universe()
+        seq.prepare(u, setup + [call])
+        n = call["n"]
+        for j in range(n + 1):                       # the (n+1)-th read is the one that reports the end of the data
+            for pers in (False, True):
+                e = errno.EIO
+                rs = cf.run_faulted(u, setup, call, j, pers, e, only_kind="readsrc", keep=True)
+                im = rs["im"]
+                try:
+                    rw = cf.run_faulted(u, setup, call, min(j, n - 1), False, e, only_kind="write")
+                    fired = rs["fired"] is not None
+                    run.case("search-source-read-faults", (setup_t, call_t, j, pers), nontrivial=fired,
+                             sample={"search": "the data source fails while buffer k is read", "setup": setup_t, "call": call_t, "buffer": j,
+                                     "persistent": pers, "outcome": rs["outcome"], "same_buffer_write_fault": rw["outcome"]})
+                    if not fired:
+                        continue
+                    replay = {"setup": setup_t, "call": call_t, "source_read": j, "persistent": pers}
+                    sig = {"kind": "fault", "call": call["op"], "mode": "persistent" if pers else "once", "site": "readsrc", "dest": "source"}
+                    if rs["outcome"] == "HANG":
+                        run.violation(dict(sig, symptom="does-not-return"), "[%s] after [%s]: the data source fails at its read number %d and the call does not return (identifiers held: %s)" % (call_t, setup_t, j, rs["locks"]), replay)
+                        continue
+                    if rs["locks"]:
+                        run.violation(dict(sig, symptom="identifier-left-locked"), "[%s]: the data source fails at read %d; the call returned %s and left identifiers locked: %s" % (call_t, j, rs["outcome"], rs["locks"]), replay)
+                    if follow_up(im, call) is None:
+                        run.violation(dict(sig, symptom="follow-up-blocks"), "[%s]: after the data source failed at read %d a follow-up call on the same identifiers does not return" % (call_t, j), replay)
+                        continue
+                    if rs["outcome"].startswith("ok:"):
+                        run.violation(dict(sig, symptom="success-without-effect"), "[%s] after [%s]: the data source failed at read %d (buffer not delivered) and the call reported success: %s" % (call_t, setup_t, j, rs["outcome"]), replay)
+                    a = (rs["outcome"].startswith("exn:"), cf.canon_tmp(rs["state"]), sorted(rs["locks"]))
+                    b = (rw["outcome"].startswith("exn:"), cf.canon_tmp(rw["state"]), sorted(rw["locks"]))
+                    if a != b:
+                        run.disagree("P-fault/source-read", replay, "as the failing write of that buffer: %s %s %s" % (rw["outcome"], rw["state"], rw["locks"]),
+                                     "%s %s %s" % (rs["outcome"], rs["state"], rs["locks"]), ["FaultGeneral.rfs_write_chunks", "C13_fault_safe"])
+                finally:
+                    im.close()
+
+
 def c13(run):
     fault_scenarios(run, "menus13.json", ["C13_fault_safe", "C13_one_off_all_pass", "C13_no_lock_left"])
+    source_read_faults(run)
 
 
 # ====================================================================== C09
